@@ -34,6 +34,10 @@ var racePairs = [][2]string{
 	{"V:c:3:nil", "V:c:2:A"},
 	{"V:c:2:A", "V:c:3:A@0,1"},
 	{"V:p:3:X", "V:p:3:X:zerosig"},
+	// two targets in one message, one of which conflicts with the other caller's update (partial acceptance, retry)
+	{"V:p:h:A", "V:p:0:A:andnil3"},
+	{"V:c:h:A", "V:c:0:A:andnil3"},
+	{"V:p:1:A", "V:p:0:A:andnil3"},
 }
 
 var raceSeeds = []int{1, 2, 4, 7, 9, 14}
